@@ -35,7 +35,7 @@ theorem createSc_spec {T} {ms : Mid} (hc : Ctx T ms.base) (hI : Inv T ms) {id : 
     rw [hnew]; unfold ScOk
     refine ⟨fun _ => hb Kind.sc, fun h => ?_, fun h => ?_⟩ <;> simp at h
   have hA := putSc_agree hI.struct hc.disj hT f hfid
-  refine ⟨putSc_inv hI hc.disj hT f hfid hok, hA, hF.tail.agree hA (fun q hq => hF.head_not_mem q hq), ?_, ?_,
+  refine ⟨putSc_inv hI hc.disj hT f hfid hok (hI.not_spent_of_lookup_none hl), hA, hF.tail.agree hA (fun q hq => hF.head_not_mem q hq), ?_, ?_,
     putSc_pool _ _ _, putSc_base_c1 _ _ _⟩
   · unfold Phi
     rw [putSc_tot_fresh hI.struct hc.disj hT f hfid hv (hb Kind.sc),
@@ -96,7 +96,12 @@ theorem spendSc_spec {T} {ms : Mid} (hc : Ctx T ms.base) (hI : Inv T ms) {e : Sc
   have hA1 := putSc_agree hI.struct hc.disj hT f hfid
   have hA2 := agree_addSpend (ms.putSc e.id f) e.id
   simp only [putSc_spends_c1] at hA2 ⊢
+  have hns : e.id ∉ ms.spends := hI.not_spent_sc hc.disj hT (fun d hv => by have := hm; rw [hv] at this; exact this.1)
   have hI' := putSc_inv' hI hc.disj hT f hfid (e.id :: ms.spends) (fun x hx => List.mem_cons_of_mem _ hx) hok
+    (List.nodup_cons.mpr ⟨hns, hI.nodup⟩) (fun y hy => by
+      rcases List.mem_cons.mp hy with h | h
+      · exact Or.inl h
+      · exact Or.inr h) (by rw [hnew])
   refine ⟨hI', hA1.trans hA2, ?_, ?_, putSc_pool _ _ _, putSc_base_c1 _ _ _⟩
   · unfold Phi
     have e1 : scTot { ms.putSc e.id f with spends := e.id :: ms.spends } = scTot (ms.putSc e.id f) := scTot_congr rfl rfl
@@ -138,7 +143,7 @@ theorem createSf_spec {T} {ms : Mid} (hc : Ctx T ms.base) (hI : Inv T ms) {id : 
     rw [hnew]; unfold SfOk
     refine ⟨fun _ => hb Kind.sf, fun h => ?_, fun h => ?_⟩ <;> simp at h
   have hA := putSf_agree hI.struct hc.disj hT f hfid
-  refine ⟨putSf_inv hI hc.disj hT f hfid hok, hA, hF.tail.agree hA (fun q hq => hF.head_not_mem q hq), ?_, ?_,
+  refine ⟨putSf_inv hI hc.disj hT f hfid hok (hI.not_spent_of_lookup_none hl), hA, hF.tail.agree hA (fun q hq => hF.head_not_mem q hq), ?_, ?_,
     putSf_pool _ _ _, putSf_base_c1 _ _ _⟩
   · unfold Phi
     rw [scTot_congr (putSf_base_c1 _ _ _) (putSf_sces _ _ _),
@@ -198,7 +203,12 @@ theorem spendSf_spec {T} {ms : Mid} (hc : Ctx T ms.base) (hI : Inv T ms) {e : Sf
   have hA1 := putSf_agree hI.struct hc.disj hT f hfid
   have hA2 := agree_addSpend (ms.putSf e.id f) e.id
   simp only [putSf_spends_c1] at hA2 ⊢
+  have hns : e.id ∉ ms.spends := hI.not_spent_sf hc.disj hT (fun d hv => by have := hm; rw [hv] at this; exact this.1)
   have hI' := putSf_inv' hI hc.disj hT f hfid (e.id :: ms.spends) (fun x hx => List.mem_cons_of_mem _ hx) hok
+    (List.nodup_cons.mpr ⟨hns, hI.nodup⟩) (fun y hy => by
+      rcases List.mem_cons.mp hy with h | h
+      · exact Or.inl h
+      · exact Or.inr h) (by rw [hnew])
   refine ⟨hI', hA1.trans hA2, ?_, ?_, putSf_pool _ _ _, putSf_base_c1 _ _ _⟩
   · unfold Phi
     have e1 : scTot { ms.putSf e.id f with spends := e.id :: ms.spends } = scTot ms :=
@@ -254,7 +264,7 @@ theorem createFc2_spec {T} {ms ms' : Mid} (hc : Ctx T ms.base) (hI : Inv T ms) {
     rw [hnew]; unfold Fc2Ok
     refine ⟨fun _ => hb Kind.fc2, fun h => ?_, fun h => ?_, rfl, hmh⟩ <;> simp at h
   have hA := putFc2_agree hI.struct hc.disj hT f hfid
-  have hI1 := putFc2_inv hI hc.disj hT f hfid hok
+  have hI1 := putFc2_inv hI hc.disj hT f hfid hok (hI.not_spent_of_lookup_none hl)
   have hA2 : Agree (ms.putFc2 id f) { ms.putFc2 id f with pool := pool } (· = id) :=
     agree_scalars rfl rfl rfl rfl rfl rfl rfl _
   have hAA := hA.trans hA2
@@ -333,7 +343,8 @@ theorem reviseFc2_spec {T} {ms : Mid} (hc : Ctx T ms.base) (hI : Inv T ms) {e : 
     rw [hnew]; unfold Fc2Ok
     refine ⟨fun h => ?_, fun _ => hs.2.1, fun h => ?_, hval, hmh⟩ <;> simp at h
   have hA := putFc2_agree hI.struct hc.disj hT f hfid
-  refine ⟨putFc2_inv hI hc.disj hT f hfid hok, hA, ?_, sfTot_congr (putFc2_base_c1 _ _ _) (putFc2_sfes _ _ _),
+  have hns : e.id ∉ ms.spends := hI.not_spent_fc2 hc.disj hT (fun d hv => by have := hs.2.2; rw [hv] at this; exact this)
+  refine ⟨putFc2_inv hI hc.disj hT f hfid hok hns, hA, ?_, sfTot_congr (putFc2_base_c1 _ _ _) (putFc2_sfes _ _ _),
     putFc2_pool _ _ _, putFc2_base_c1 _ _ _⟩
   unfold Phi
   rw [scTot_congr (putFc2_base_c1 _ _ _) (putFc2_sces_c1 _ _ _), fc1Tot_congr (putFc2_base_c1 _ _ _) (putFc2_fces _ _ _),
@@ -397,7 +408,12 @@ theorem resolveFc2_spec {T} {ms ms' : Mid} (hc : Ctx T ms.base) (hI : Inv T ms) 
   have hA1 := putFc2_agree hI.struct hc.disj hT f hfid
   have hA2 := agree_addSpend (ms.putFc2 e.id f) e.id
   simp only [putFc2_spends_c1] at hA2 ⊢
+  have hns : e.id ∉ ms.spends := hI.not_spent_fc2 hc.disj hT (fun d hv => by have := hs.2.2; rw [hv] at this; exact this)
   have hI' := putFc2_inv' hI hc.disj hT f hfid (e.id :: ms.spends) (fun x hx => List.mem_cons_of_mem _ hx) hok
+    (List.nodup_cons.mpr ⟨hns, hI.nodup⟩) (fun y hy => by
+      rcases List.mem_cons.mp hy with h | h
+      · exact Or.inl h
+      · exact Or.inr h) (by rw [hnew]; rfl)
   refine ⟨hI', hA1.trans hA2, ?_, sfTot_congr (putFc2_base_c1 _ _ _) (putFc2_sfes _ _ _), putFc2_pool _ _ _, putFc2_base_c1 _ _ _⟩
   unfold Phi
   have e1 : scTot { ms.putFc2 e.id f with spends := e.id :: ms.spends } = scTot ms :=
@@ -446,7 +462,7 @@ theorem createFc1_spec {T} {ms ms' : Mid} (hc : Ctx T ms.base) (hI : Inv T ms) {
     rw [hnew]; unfold Fc1Ok
     refine ⟨fun _ => hb Kind.fc1, fun h => ?_, fun h => ?_, fun _ => ⟨rfl, hbal⟩⟩ <;> simp at h
   have hA := putFc1_agree hI.struct hc.disj hT f hfid
-  have hI1 := putFc1_inv hI hc.disj hT f hfid hok
+  have hI1 := putFc1_inv hI hc.disj hT f hfid hok (hI.not_spent_of_lookup_none hl)
   have hA2 : Agree (ms.putFc1 id f) { ms.putFc1 id f with pool := pool } (· = id) :=
     agree_scalars rfl rfl rfl rfl rfl rfl rfl _
   have hAA := hA.trans hA2
@@ -566,7 +582,8 @@ theorem reviseFc1_spec {T} {ms : Mid} (hc : Ctx T ms.base) (hI : Inv T ms) {e : 
       · unfold fc1Dv; rw [p1, hd.1]; simp only [Bool.false_eq_true, if_false]; exact hvalcur
   obtain ⟨hfid, hok, hdv⟩ := key
   have hA := putFc1_agree hI.struct hc.disj hT f hfid
-  refine ⟨putFc1_inv hI hc.disj hT f hfid hok, hA, ?_, sfTot_congr (putFc1_base_c1 _ _ _) (putFc1_sfes _ _ _),
+  have hns : e.id ∉ ms.spends := hI.not_spent_fc1 hc.disj hT (fun d hv => by have := hs.2; rw [hv] at this; exact this.1)
+  refine ⟨putFc1_inv hI hc.disj hT f hfid hok hns, hA, ?_, sfTot_congr (putFc1_base_c1 _ _ _) (putFc1_sfes _ _ _),
     putFc1_pool _ _ _, putFc1_base_c1 _ _ _⟩
   unfold Phi
   rw [scTot_congr (putFc1_base_c1 _ _ _) (putFc1_sces_c1 _ _ _), fc2Tot_congr (putFc1_base_c1 _ _ _) (putFc1_v2fces _ _ _),
@@ -658,7 +675,14 @@ theorem resolveFc1_spec {T} {ms : Mid} (hc : Ctx T ms.base) (hI : Inv T ms) {e :
   have hA1 := putFc1_agree hI.struct hc.disj hT f hfid
   have hA2 := agree_addSpend (ms.putFc1 e.id f) e.id
   simp only [putFc1_spends_c1] at hA2 ⊢
+  have hns : e.id ∉ ms.spends := hI.not_spent_fc1 hc.disj hT (fun d hv => by have := hs.2; rw [hv] at this; exact this.1)
+  have hres : (fc1New ms e.id f).resolved = true := by
+    unfold fc1New; rw [← hf]; simp only []; split <;> rfl
   have hI' := putFc1_inv' hI hc.disj hT f hfid (e.id :: ms.spends) (fun x hx => List.mem_cons_of_mem _ hx) hok
+    (List.nodup_cons.mpr ⟨hns, hI.nodup⟩) (fun y hy => by
+      rcases List.mem_cons.mp hy with h | h
+      · exact Or.inl h
+      · exact Or.inr h) hres
   refine ⟨hI', hA1.trans hA2, ?_, sfTot_congr (putFc1_base_c1 _ _ _) (putFc1_sfes _ _ _), putFc1_pool _ _ _, putFc1_base_c1 _ _ _⟩
   unfold Phi
   have e1 : scTot { ms.putFc1 e.id f with spends := e.id :: ms.spends } = scTot ms :=
